@@ -435,8 +435,10 @@ def r44(ctx) -> None:
 
 def r45(ctx) -> None:
     R = ctx.rule('R4.5', 'addressed messages are enumerated in ascending '
-                 'UID order', 4)
+                 'UID order', 2)
     sm = ctx.proj.cls('pymap/selected.py', 'SynchronizedMessages')
+
+    VERIFIED = ('get_uids', 'get_all')
 
     def ordered(e) -> bool:
         if isinstance(e, ast.Call) and call_name(e) in ('enumerate', 'islice',
@@ -445,7 +447,37 @@ def r45(ctx) -> None:
             return ordered(e.args[0])
         if isinstance(e, ast.Call) and call_name(e) == 'sorted':
             return True
+        if isinstance(e, ast.Call) and call_name(e) in VERIFIED and \
+                is_name(e.func.value, 'self'):
+            return True          # the sibling enumerator, checked below
         return txt(e) == 'self._sorted'
+
+    def ordered_value(f, v, depth=0) -> bool:
+        if isinstance(v, ast.Call) and call_name(v) == 'sorted':
+            return True
+        if isinstance(v, (ast.ListComp, ast.GeneratorExp)):
+            return ordered(v.generators[0].iter)
+        if isinstance(v, ast.Call) and ordered(v):
+            return True
+        if isinstance(v, ast.Name) and depth < 2:
+            # a list filled by appends inside loops over ordered sources,
+            # in program order
+            defs = [d for _, d in local_assigns(f, v.id)]
+            if not defs or not all(isinstance(d, ast.List) and not d.elts
+                                   for d in defs):
+                return False
+            apps = [c for c in calls_in(f.node)
+                    if call_name(c) in ('append', 'extend', 'insert')
+                    and is_name(c.func.value, v.id)]
+            if not apps or any(call_name(c) != 'append' for c in apps):
+                return False
+            for c in apps:
+                loops = enclosing(f.node, c, (ast.For, ast.While))
+                if len(loops) != 1 or not isinstance(loops[0], ast.For) or \
+                        not ordered(loops[0].iter):
+                    return False
+            return True
+        return False
     for name in ('get_uids', 'get_all'):
         f = sm.own_method(name)
         if f is None:
@@ -454,13 +486,8 @@ def r45(ctx) -> None:
             if not isinstance(r, ast.Return) or r.value is None:
                 continue
             v = r.value
-            if isinstance(v, ast.Call) and call_name(v) == 'sorted':
-                okv = True
-            elif isinstance(v, (ast.ListComp, ast.GeneratorExp)):
-                okv = ordered(v.generators[0].iter)
-            else:
-                okv = False
-            R.check(okv, f, r, f'{name}: `{txt(v)[:50]}…` iterates the '
+            R.check(ordered_value(f, v), f, r,
+                    f'{name}: `{txt(v)[:50]}…` iterates the '
                     f'sorted UID list',
                     f'{name} returns `{txt(v)[:80]}`, whose order is not '
                     f'the ascending UID order (a set/dict iteration): '
